@@ -23,6 +23,7 @@ def valStr : Val → String
   | .bool b => "ok:" ++ boolStr b
   | .bytes b => "ok:b:" ++ hx b
   | .ints l => "ok:i:" ++ joinOr ";" "-" (l.map toString)
+  | .int n => s!"ok:n:{n}"
 
 def errStr : HErr → String
   | .timeout => "E:timeout"
@@ -79,6 +80,20 @@ def parseOp : List String → Option Op
   | ["read_memory", a, n, m, f] => do pure (.readMemory (← a.toNat?) (← n.toNat?) (← m.toNat?) (← parseBool f))
   | ["write_memory", a, d, m] => do pure (.writeMemory (← a.toNat?) (← parseHex d) (← m.toNat?))
   | ["receive_sb_file", d, c] => do pure (.receiveSbFile (← parseHex d) (← parseBool c))
+  | ["load_image", d] => do pure (.loadImage (← parseHex d))
+  | ["flash_read_once", i, c] => do pure (.flashReadOnce (← i.toNat?) (← c.toNat?))
+  | ["flash_program_once", i, d] => do pure (.flashProgramOnce (← i.toNat?) (← parseHex d))
+  | ["efuse_read_once", i] => do pure (.efuseReadOnce (← i.toNat?))
+  | ["efuse_program_once", i, v, c] => do pure (.efuseProgramOnce (← i.toNat?) (← v.toNat?) (← parseBool c))
+  | ["flash_read_resource", a, n, o] => do pure (.flashReadResource (← a.toNat?) (← n.toNat?) (← o.toNat?))
+  | ["kp_enroll"] => some .kpEnroll
+  | ["kp_set_intrinsic_key", t, z] => do pure (.kpSetIntrinsicKey (← t.toNat?) (← z.toNat?))
+  | ["kp_write_nonvolatile", m] => do pure (.kpWriteNonvolatile (← m.toNat?))
+  | ["kp_read_nonvolatile", m] => do pure (.kpReadNonvolatile (← m.toNat?))
+  | ["kp_set_user_key", t, d] => do pure (.kpSetUserKey (← t.toNat?) (← parseHex d))
+  | ["kp_write_key_store", d] => do pure (.kpWriteKeyStore (← parseHex d))
+  | ["kp_read_key_store"] => some .kpReadKeyStore
+  | ["reset", r] => do pure (.reset (← parseBool r))
   | _ => none
 
 def phaseStr : Phase → String
@@ -120,34 +135,37 @@ def parseSdpOp : List String → Option Sdp.Op
   | ["skip_dcd"] => some .skipDcd
   | ["jump_and_run", a] => do pure (.jumpAndRun (← a.toNat?))
   | ["read_status"] => some .readStatus
+  | ["sdps_write_file", nc, ps, d] => do pure (.sdpsWriteFile (← parseBool nc) (← ps.toNat?) (← parseHex d))
   | _ => none
 
 def stepLine (st : St) : List String → St × String
-  | ["sdp_cfg", ce] =>
+  | ["sdp_cfg", ce, tr] =>
     match parseBool ce with
-    | some ce => ({ st with shost := { ce } }, "ok")
+    | some ce => ({ st with shost := { ce, tr := if tr == "hid" then .hid else .serial } }, "ok")
     | none => (st, "bad-op")
   | ["sdp_rom", mem, locked, err, forced] =>
     match parseHex mem, parseBool locked, err.toNat?, parsePairs forced with
     | some mem, some locked, some err, some forced => ({ st with rom := { mem, locked, errStatus := err, forced } }, "ok")
     | _, _, _, _ => (st, "bad-op")
-  | ["sdp_live"] => ({ st with shost := { st.shost with peer := .live st.rom } }, "ok")
+  | ["sdp_live"] =>
+    ({ st with shost := { st.shost with peer := if st.shost.tr == .hid then .liveHid { rom := st.rom } else .live st.rom } }, "ok")
   | ["sdp_script", cs] =>
-    match (if cs == "." then some [] else (cs.splitOn ",").mapM parseHex) with
-    | some cs => ({ st with shost := { st.shost with peer := .script cs } }, "ok")
+    match parseChunks cs with
+    | some cs => ({ st with shost := { st.shost with peer := .script cs, fuelHint := scriptSize cs } }, "ok")
     | none => (st, "bad-op")
   | "sdp_op" :: rest =>
     match parseSdpOp rest with
     | some op =>
       let (r, h) := Sdp.runOp op st.shost
       let tx := joinOr "," "." (h.txRev.reverse.map hx)
-      let rel := joinOr "," "." (h.relRev.reverse.map hx)
+      let rel := joinOr "," "." (h.relRev.reverse.map chunkStr)
       ({ st with shost := { h with txRev := [], relRev := [] } },
         s!"{sdpResStr r} st={h.status} hab={h.hab} cs={h.cmdStatus} tx={tx} rel={rel}")
     | none => (st, "bad-op")
   | ["sdp_state"] =>
     match st.shost.peer with
     | .live r => (st, s!"mem={hx r.mem} ncmd={r.ncmd} jumped={r.jumped.getD 0} rx={hx st.shost.rx}")
+    | .liveHid x => (st, s!"mem={hx x.rom.mem} ncmd={x.rom.ncmd} jumped={x.rom.jumped.getD 0} rx={chunkStr st.shost.rxR}")
     | _ => (st, s!"norom rx={hx st.shost.rx}")
   | ["sdp_cmdbytes", t, a, f, c, v] =>
     match t.toNat?, a.toNat?, f.toNat?, c.toNat?, v.toNat? with
@@ -166,6 +184,13 @@ def stepLine (st : St) : List String → St × String
     | some mem, some mp, some pad, some dummy, some props, some rw, some faults =>
       ({ st with dev := { mem, maxPacket := mp, hidPad := pad, pingDummy := dummy, props, rwProps := rw, faults } }, "ok")
     | _, _, _, _, _, _, _ => (st, "bad-op")
+  -- further device state: fuses, locked fuse indices, resource, key store, image mode, abort-after (or "-")
+  | ["dev2", fuses, locked, res, ks, img, ab] =>
+    match parsePairs fuses, parseNats locked, parseHex res, parseHex ks, parseBool img with
+    | some fuses, some locked, some res, some ks, some img =>
+      ({ st with dev := { st.dev with fuses, lockedFuses := locked, resource := res, keyStore := ks, imageMode := img,
+                                      abortAfter := ab.toNat? } }, "ok")
+    | _, _, _, _, _ => (st, "bad-op")
   | ["live"] => ({ st with host := { st.host with peer := .live st.dev, fuelHint := 0 } }, "ok")
   | ["script", cs] =>
     match parseChunks cs with
@@ -177,14 +202,18 @@ def stepLine (st : St) : List String → St × String
       let (r, h) := runOp op st.host
       let tx := joinOr "," "." (h.txRev.reverse.map hx)
       let rel := joinOr "," "." (h.relRev.reverse.map chunkStr)
-      ({ st with host := { h with txRev := [], relRev := [] } }, s!"{resStr r} st={h.status} tx={tx} rel={rel}")
+      ({ st with host := { h with txRev := [], relRev := [], reads := 0 } },
+        s!"{resStr r} st={h.status} rd={h.reads} tx={tx} rel={rel}")
     | none => (st, "bad-op")
   | ["state"] =>
     let h := st.host
     let d := match h.peer with | .live d => some d | _ => none
     let ds := match d with
       | some d => s!"mem={hx d.mem} sb={hx d.sb} ncmd={d.ncmd} phase={phaseStr d.phase} log=" ++
-          joinOr "|" "-" (d.log.map (fun (e : Nat × List Nat) => s!"{e.1}:" ++ joinOr ";" "-" (e.2.map toString)))
+          joinOr "|" "-" (d.log.map (fun (e : Nat × List Nat) => s!"{e.1}:" ++ joinOr ";" "-" (e.2.map toString))) ++
+          s!" img={hx d.image} ks={hx d.keyStore} fuses=" ++
+          joinOr ";" "-" ((d.fuses.mergeSort (fun a b => a.1 ≤ b.1)).map (fun (e : Nat × Nat) => s!"{e.1}={e.2}")) ++
+          " keys=" ++ joinOr ";" "-" ((d.userKeys.mergeSort (fun a b => a.1 ≤ b.1)).map (fun (e : Nat × Bytes) => s!"{e.1}={hx e.2}"))
       | none => "nodev"
     let mps := match h.mps with | some v => toString v | none => "none"
     (st, s!"mps={mps} opened={boolStr h.opened} eda={boolStr h.eda} rxB={hx h.rxB} rxR={chunkStr h.rxR} {ds}")
